@@ -150,4 +150,35 @@ theorem cover_wrapper_exact_near {lt : K × Nat → K × Nat → Bool} {i k : Na
       simp only [length_cons] at h4
       omega
 
+/-- the leaves of a `wfTree` are the samples `0 .. N-1`, each once -/
+theorem wfTree_leaves_perm {N : Nat} {top : CNode K} (hwf : wfTree δ N top = true) :
+    top.leaves.Perm (List.range N) := by
+  unfold wfTree at hwf
+  simp only [Bool.and_eq_true, decide_eq_true_eq, beq_iff_eq, all_eq_true] at hwf
+  obtain ⟨⟨⟨_, hnd⟩, hlen⟩, hall⟩ := hwf
+  have hsp : top.leaves <+~ List.range N := hnd.subperm (fun x hx => mem_range.2 (hall x hx))
+  exact hsp.perm_of_length_le (by simp [hlen])
+
+/-- **good results give exact lists**: when the batch query's results are `Good` for the leaves of a `wfTree`, every
+    sample has a result and the wrapper selects the exact k-NN list from every result -/
+theorem good_results_exact {k N : Nat} (hk : k < N) {top : CNode K} (hwf : wfTree δ N top = true)
+    {res : List (List Nat)} (hg : Good δ (List.range N) (k + 1) top.leaves res) :
+    (∀ q, q < N → ∃ cands, q :: cands ∈ res) ∧
+      ∀ (q : Nat) (cands l : List Nat) (lt : K × Nat → K × Nat → Bool), q :: cands ∈ res →
+        (∀ a b : K × Nat, lt b a = false → a.1 ≤ b.1) → CoverOut δ lt q k cands l →
+        IsExactKnn δ (List.range N) k q l := by
+  have hperm := wfTree_leaves_perm hwf
+  constructor
+  · intro q hq
+    obtain ⟨r, hr, hhead⟩ := hg.2 q (hperm.mem_iff.2 (mem_range.2 hq))
+    obtain ⟨q', _, cands, rfl, _⟩ := hg.1 r hr
+    simp only [head?_cons, Option.some.injEq] at hhead
+    subst hhead
+    exact ⟨cands, hr⟩
+  · intro q cands l lt hr hlt hl
+    obtain ⟨q', hq', cands', heq, hgc⟩ := hg.1 _ hr
+    simp only [cons.injEq] at heq
+    obtain ⟨rfl, rfl⟩ := heq
+    exact cover_wrapper_exact_near nodup_range (hperm.mem_iff.1 hq') (by simpa using hk) hgc hlt hl
+
 end TapkeeVerif.CoverTree
